@@ -424,6 +424,33 @@ func constBounds(c *Ctx, p *Prog, m *Model) {
 			r.Check(up < s.need, "R02.8", key, p.Pos(instrPos(s.in)), fmt.Sprintf("the position is at most %d (%s), the table has %d entries", up, why, s.need),
 				fmt.Sprintf("the table has %d entries but the position can be %d (%s): that value makes the logging call panic with an index out of range", s.need, up, why))
 		}
+		// a fixed-size scratch array re-sliced up to a computed position
+		for _, b := range fn.Blocks {
+			for _, in := range b.Instrs {
+				sl, ok := in.(*ssa.Slice)
+				if !ok || sl.High == nil {
+					continue
+				}
+				pt, isP := sl.X.Type().Underlying().(*types.Pointer)
+				if !isP {
+					continue
+				}
+				at, isA := pt.Elem().Underlying().(*types.Array)
+				if !isA {
+					continue
+				}
+				if _, isC := constInt(sl.High); isC {
+					continue
+				}
+				up, why, have := idxUpper(sl.High, b)
+				key := fmt.Sprintf("bounds:%s[scratch %s]", shortName(fn), m.valDesc(sl.X))
+				if !have {
+					continue // decided elsewhere (the buffer clones, R20.1's interval analysis)
+				}
+				r.Check(up <= at.Len(), "R02.8", key, p.Pos(instrPos(sl)), fmt.Sprintf("re-sliced up to at most %d (%s) of %d", up, why, at.Len()),
+					fmt.Sprintf("the scratch array has %d bytes but is re-sliced up to %d (%s): for an input of exactly that size the call panics with slice bounds out of range", at.Len(), up, why))
+			}
+		}
 		sites := constBoundSites(fn)
 		if len(sites) == 0 {
 			continue
@@ -504,6 +531,12 @@ func idxUpper(idx ssa.Value, b *ssa.BasicBlock) (int64, string, bool) {
 				case token.REM:
 					if k > 0 {
 						take(k-1, fmt.Sprintf("%% %d", k))
+					}
+				case token.ADD:
+					if bo.X != idx || len(cands) == 1 {
+						if up, w, ok := idxUpper(bo.X, b); ok {
+							take(up+k, fmt.Sprintf("%s, + %d", w, k))
+						}
 					}
 				case token.SHR:
 					if bt, ok := bo.X.Type().Underlying().(*types.Basic); ok && k >= 0 && k < 63 {
